@@ -35,7 +35,8 @@ longline = st.tuples(line, st.integers(2, 12)).map(lambda t: (t[0] + " ") * t[1]
 KEYS = ["j", "k", "l", "h", "w", "b", "$", "0", "G", "1G", "5G", "H", "M", "L", "3j", "4k", "10l", "}", "{",
         "\x05", "\x19", "\x04", "\x15", "\x06", "\x02", "2\x05", "3\x19", "z\n", "z.", "z-",
         "x", "dd", "2dd", "D", "J", "p", "P", "yy", "yyp", "ddp", "u", "\x12", ">>", "~", "rZ",
-        "ofoo\x1b", "Obar\x1b", "ix\x1b", "Aend\x1b", "otwo\nlines\x1b", "cwnew\x1b", "S\x1b", "3Otop\x1b",
+        # (^E first: a ^F typed at a pending "[enter to continue]" prompt selects the alternate (Farsi) keymap for later inserts)
+        "o\x05foo\x1b", "O\x05bar\x1b", "i\x05x\x1b", "A\x05end\x1b", "o\x05two\nlines\x1b", "cw\x05new\x1b", "S\x1b", "3O\x05top\x1b",
         ":3d\n", ":$d\n", ":1,3d\n", ":s/o/0/g\n", ":g/foo/d\n", ":2\n", ":$\n", ":1\n", ":se hll\n", ":se nohl\n", ":%p\n", ":ec hi\n", ":u\n",
         "/foo\n", "?bar\n", "n", "N", "\x07", "ma", "'a", "``"]
 WKEYS = ["\x17s", "\x17j", "\x17k", "\x17o", "\x17c", "\x17x"]
